@@ -573,7 +573,9 @@ func r016(c *Ctx, r *R) {
 		snap := one("raft.raftWrapper).snapshotOnShutdown")
 		rs := one("hashicorp/raft.Raft).Shutdown")
 		cl := one("raft-boltdb.BoltStore).Close")
-		if snap == nil || rs == nil || cl == nil {
+		if (snap == nil || rs == nil || cl == nil) && r016Table(c, r, f) {
+			// decided on the table of shutdown steps
+		} else if snap == nil || rs == nil || cl == nil {
 			r.Bad("shutdown:calls", f.Pos(), "raft shutdown no longer calls snapshotOnShutdown / raft.Shutdown / boltdb.Close (%v %v %v)", snap != nil, rs != nil, cl != nil)
 		} else {
 			r.Check(dominatesInstr(snap, rs), "shutdown:snapshot-before-raft", rs.Pos(), "the final snapshot is taken before raft is stopped", "raft is stopped before the final snapshot: the snapshot cannot be taken and recent entries are replayed from the log only")
@@ -592,4 +594,32 @@ func r016(c *Ctx, r *R) {
 		}
 	}
 	_ = types.Typ
+}
+
+// r016Table decides the raft shutdown clauses when the three steps are kept
+// as a table run by a loop (see stepTable): rows in the order snapshot, raft
+// stop, store close, every row run on every path.
+func r016Table(c *Ctx, r *R, f *ssa.Function) bool {
+	pats := []string{"raft.raftWrapper).snapshotOnShutdown", "hashicorp/raft.Raft).Shutdown", "raft-boltdb.BoltStore).Close"}
+	for _, tb := range stepTablesOf(f) {
+		row := []int{-1, -1, -1}
+		for k, fn := range tb.Fns {
+			for i, p := range pats {
+				if nameMatches(fn.String(), p) || len(findCalls(fn, false, p)) > 0 {
+					if row[i] >= 0 {
+						return false
+					}
+					row[i] = k
+				}
+			}
+		}
+		if row[0] < 0 || row[1] < 0 || row[2] < 0 {
+			continue
+		}
+		r.Check(row[0] < row[1], "shutdown:snapshot-before-raft", tb.Call.Pos(), "the final snapshot is taken before raft is stopped (rows of the step table)", "raft is stopped before the final snapshot: the snapshot cannot be taken and recent entries are replayed from the log only")
+		r.Check(row[1] < row[2], "shutdown:raft-before-store", tb.Call.Pos(), "raft is stopped before its store is closed (rows of the step table)", "the log store is closed while raft may still write to it")
+		r.Check(tb.RunAll && len(guardsOf(tb.Header)) == 0, "shutdown:unconditional", f.Pos(), "every step of the table runs on every path", "raft stop / store close are conditional")
+		return true
+	}
+	return false
 }
